@@ -86,6 +86,17 @@ Proof. exact class_header_markers. Qed.
 Theorem C20_class_leaves_nothing_pending : forall classes rmap nc fuel c indent rx s x s',
   class_string classes rmap nc fuel c indent rx s = Ok (x, s') -> clean s -> clean s'.
 Proof. exact class_string_clean. Qed.
+(* the premises of C20_function_markers are met by a concrete function (one required keyword-only parameter of tuple type, no
+   results), and its conclusion has content: three marker lines, sorted, in front of the documentation comment *)
+Theorem C20_function_markers_example :
+  func_marks false [] false ex_func = [K"no tuple support"; K"REQ_NAME_ONLY"; K"result without type"] /\
+  (if negb false && negb false then shorter_reexport (f_name ex_func) (f_reexported_by ex_func) init_gst else None) = None /\
+  g_todos init_gst = [] /\
+  exists x s', function_string [] [] false ex_func [] false false init_gst = Ok (x, s') /\ g_todos s' = [] /\
+    starts_with (K"// TODO Result type information missing." ++ NL ++
+                 K"// TODO Safe-DS does not support required but name only parameter assignments." ++ NL ++
+                 K"// TODO Safe-DS does not support tuple types." ++ NL) x = true.
+Proof. exact function_markers_example. Qed.
 (* the specification is not empty: a tuple of a two-argument set and an unknown *)
 Example C20_markers_example :
   tmarks (TTuple [TSet [TNamed (K"int") (K"builtins.int"); TNamed (K"str") (K"builtins.str")]; TUnknown]) =
@@ -111,3 +122,4 @@ Print Assumptions C20_markers_example.
 Print Assumptions C20_model_raises_exactly_the_source_keys.
 Print Assumptions C20_class_header_markers.
 Print Assumptions C20_class_leaves_nothing_pending.
+Print Assumptions C20_function_markers_example.
